@@ -105,6 +105,21 @@ type P14 struct {
 	C int64 `json:"c"`
 }
 
+// P15..P17 are the members of the enumerated one-of space with struct-mapped members (told apart by Go type).
+type P15 struct {
+	X int64 `json:"x"`
+}
+
+type P16 struct {
+	X *int64  `json:"x"`
+	Y *string `json:"y"`
+}
+
+type P17 struct {
+	X *int64  `json:"x"`
+	Z *string `json:"z"`
+}
+
 type P9 struct {
 	FieldByName int64
 	Other       string `json:"other,omitempty"`
@@ -148,6 +163,12 @@ func buildStruct(name, id string, props map[string]*schema.PropertySchema) *sche
 		return schema.NewStructMappedObjectSchema[P13](id, props)
 	case "P14":
 		return schema.NewStructMappedObjectSchema[P14](id, props)
+	case "P15":
+		return schema.NewStructMappedObjectSchema[P15](id, props)
+	case "P16":
+		return schema.NewStructMappedObjectSchema[P16](id, props)
+	case "P17":
+		return schema.NewStructMappedObjectSchema[P17](id, props)
 	case "P10":
 		return schema.NewStructMappedObjectSchema[P10](id, props)
 	case "*P10":
@@ -191,6 +212,12 @@ func ZeroStruct(name string) any {
 		return P13{}
 	case "P14":
 		return P14{}
+	case "P15":
+		return P15{}
+	case "P16":
+		return P16{}
+	case "P17":
+		return P17{}
 	case "P10":
 		return P10{}
 	case "*P10":
